@@ -215,7 +215,7 @@ func report(r *evid.Run, prop string, o *OptSet, alpha []Op, seq []int, step int
 
 // ReplayCase re-executes a recorded sequence; "" means it passes.
 func ReplayCase(cs Case) string {
-	alpha := Alphabet()
+	var alpha []Op
 	var o *OptSet
 	sets := OptSets()
 	for i := range sets {
@@ -227,21 +227,25 @@ func ReplayCase(cs Case) string {
 		return ""
 	}
 	var seq []int
-	for _, l := range cs.Ops {
-		found := -1
-		for i := range alpha {
-			if alpha[i].M.Label == l {
-				found = i
-			}
-		}
-		if found < 0 {
+	for i, l := range cs.Ops {
+		op, ok := opFromLabel(l)
+		if !ok {
 			return ""
 		}
-		seq = append(seq, found)
+		alpha = append(alpha, op)
+		seq = append(seq, i)
 	}
+	// long sequences (nesting-limit cases) are compared on their last calls only
 	var cnt [2]int64
-	_, msg := runSeq(&sys{}, o, alpha, seq, 0, &cnt)
+	_, msg := runSeq(&sys{}, o, alpha, seq, max(len(seq)-8, 0)*btoi(len(seq) > 2000), &cnt)
 	return msg
+}
+
+func btoi(b bool) int {
+	if b {
+		return 1
+	}
+	return 0
 }
 
 func Replay(r *evid.Run, rawc json.RawMessage) {
@@ -349,6 +353,7 @@ func Run(r *evid.Run) {
 		bfs(r, o, alpha, b.bfs, b.hist, states, &mu)
 	}
 	wide(r)
+	deep(r)
 	r.States.Add(int64(len(states)))
 	r.Sample(Case{OptSet: "default", Ops: labels(alpha, []int{3, 1, 2, 4})})
 	r.Sample(Case{OptSet: "default", Ops: labels(alpha, []int{3, 1, 3, 7, 2})})
